@@ -208,6 +208,10 @@ func runC12(c *Ctx) {
 	// prefixed key are built in fresh memory)
 	checkFreshKeyBuffers(c, "C12.R7 key-buffer-fresh", []string{"pkg/db"})
 
+	// ---- R8 the overlay shared by a store and its prefix views is never re-pointed (a
+	// snapshot restore must take effect for every view, not only for the handle it is called on)
+	checkSharedRefNotRepointed(c, "C12.R8 shared-overlay-not-repointed", []string{"pkg/db/diffdb"}, 1)
+
 	// ---- R5 merge
 	{
 		// comparator: reverse → Compare > 0, else Compare < 0
